@@ -2074,7 +2074,7 @@ func opcodeCheckMultiSig(op *ParsedOpcode, t *thread) error {
 		return err
 	}
 
-	numPubKeys := numKeys.Int()
+	numPubKeys := int(numKeys.Int32())
 	if numPubKeys < 0 {
 		return errs.NewError(errs.ErrInvalidPubKeyCount, "number of pubkeys %d is negative", numPubKeys)
 	}
@@ -2104,7 +2104,7 @@ func opcodeCheckMultiSig(op *ParsedOpcode, t *thread) error {
 		return err
 	}
 
-	numSignatures := numSigs.Int()
+	numSignatures := int(numSigs.Int32())
 	if numSignatures < 0 {
 		return errs.NewError(errs.ErrInvalidSignatureCount, "number of signatures %d is negative", numSignatures)
 	}
